@@ -82,6 +82,11 @@ def shipped(x):
 def local_only():
     return 400
 
+def hash(x):
+    return x + 5000
+
+format = "fmt-1"
+
 class Conf:
     LIMIT = 5
 
@@ -105,6 +110,7 @@ def combine(a, w=1):
 import dds
 from . import helpers
 from .helpers import scaled as sc, sort_key as skey, Conf
+from .helpers import hash, format
 from . import consts
 from .consts import UNITF as UNITF_D, ZEROF as ZEROF_D
 from .consts import BATCH as BATCH_D, RATE as RATE_D, TAGS as TAGS_D, FROZEN as FROZEN_D
@@ -179,6 +185,10 @@ def leaf_crlf():
     CALLS.append("leaf_crlf")
     return "a,b\\r\\n1,2\\rend"
 
+def leaf_shadow():
+    CALLS.append("leaf_shadow")
+    return (hash(1), format)
+
 def leaf_reexp():
     CALLS.append("leaf_reexp")
     return reexp.shipped(1)
@@ -207,6 +217,11 @@ def with_runtime(x):
     CALLS.append("with_runtime")
     return x + 1
 
+@dds.data_function("/c/optional")
+def optional(x=None, y=0):
+    CALLS.append("optional")
+    return "opt:%r:%r" % (x, y)
+
 @dds.data_function("/c/annotated")
 def annotated():
     CALLS.append("annotated")
@@ -228,6 +243,7 @@ def root():
     out["tags"] = dds.keep("/c/tags", leaf_tags)
     out["unit"] = dds.keep("/c/unit", leaf_unit)
     out["li"] = dds.keep("/c/li", leaf_li)
+    out["shadow"] = dds.keep("/c/shadow", leaf_shadow)
     out["crlf"] = dds.keep("/c/crlf", leaf_crlf)
     out["method"] = dds.keep("/c/method", leaf_method)
     out["clsattr"] = dds.keep("/c/clsattr", leaf_clsattr)
@@ -244,6 +260,7 @@ def root():
     else:
         out["dup"] = dds.keep("/c/dup", dup_leaf, out["plain"])
     out["ann"] = annotated()
+    out["opt"] = optional()
     out["ml"] = dds.keep(
         "/c/ml",
         ml_leaf,
@@ -262,7 +279,7 @@ import os, importlib
 shipped = importlib.import_module(os.environ.get("CORPUS_PKG", "corp") + ".helpers").shipped
 '''
 
-ALL = ["/c/plain", "/c/scaled", "/c/items", "/c/flag", "/c/pair", "/c/direct", "/c/kw", "/c/href", "/c/batch", "/c/rate", "/c/tags", "/c/unit", "/c/li", "/c/crlf", "/c/method", "/c/clsattr", "/c/reexp", "/c/ext", "/c/args", "/c/args2", "/c/args3", "/c/rt", "/c/dup", "/c/ml", "/c/ann_root", "/c/annotated", "/c/top_args"]
+ALL = ["/c/plain", "/c/scaled", "/c/items", "/c/flag", "/c/pair", "/c/direct", "/c/kw", "/c/href", "/c/batch", "/c/rate", "/c/tags", "/c/unit", "/c/li", "/c/shadow", "/c/crlf", "/c/method", "/c/clsattr", "/c/reexp", "/c/ext", "/c/args", "/c/args2", "/c/args3", "/c/rt", "/c/dup", "/c/ml", "/c/ann_root", "/c/annotated", "/c/optional", "/c/top_args"]
 # edits: (name, file, old, new, kept paths whose cone contains the edit [besides the root], value must change for these)
 EDITS = [
     ("callee body (transitive)", "corp/helpers.py", "return 10", "return 11", ["/c/scaled", "/c/rt"]),
@@ -288,6 +305,8 @@ EDITS = [
     # (a class is a dependency as a whole: every user of Conf is in the cone of an edit anywhere in the class body)
     ("class attribute read without a call", "corp/helpers.py", "LIMIT = 5", "LIMIT = 6", ["/c/clsattr", "/c/method", "/c/rt"]),
     ("run-time argument on a continuation line of a multi-line keep call", "corp/pipe.py", 'out["scaled"] + 1,', 'out["scaled"] + 2,', ["/c/ml"]),
+    ("function of the package named like a builtin", "corp/helpers.py", "return x + 5000", "return x + 5001", ["/c/shadow", "/c/rt"]),
+    ("variable of the package named like a builtin", "corp/helpers.py", 'format = "fmt-1"', 'format = "fmt-2"', ["/c/shadow", "/c/rt"]),
     ("unused variable", "corp/consts.py", "UNUSED = 10", "UNUSED = 11", []),
     ("two function definitions reordered", "corp/helpers.py", 'def untouched():\n    return "constant"\n\ndef weight():\n    return 7\n', 'def weight():\n    return 7\n\ndef untouched():\n    return "constant"\n', []),
     ("comment and blank lines added between definitions", "corp/helpers.py", "def weight():", "# a remark about weights\n\n\ndef weight():", []),
@@ -361,11 +380,11 @@ if mode == "entry":
         pipe.CALLS.clear()
         try:
             if style == "direct":
-                v = pipe.annotated()
+                v = (pipe.annotated(), pipe.optional())
             elif style == "eval":
-                v = dds.eval(pipe.annotated)
+                v = (dds.eval(pipe.annotated), dds.eval(pipe.optional))
             else:
-                v = dds.keep("/c/annotated", pipe.annotated)
+                v = (dds.keep("/c/annotated", pipe.annotated), dds.keep("/c/optional", pipe.optional))
             out.setdefault("steps", []).append([style, repr(v), list(pipe.CALLS)])
         except BaseException as e:
             out.setdefault("steps", []).append([style, "%s: %s" % (type(e).__name__, str(e)[:120]), list(pipe.CALLS)])
@@ -485,7 +504,7 @@ def edit(d, rel, old, new):
     shutil.rmtree(os.path.join(os.path.dirname(p), "__pycache__"), ignore_errors=True)
 
 
-FUN_OF = {"/c/ml": "ml_leaf", "/c/crlf": "leaf_crlf", "/c/method": "leaf_method", "/c/clsattr": "leaf_clsattr", "/c/li": "leaf_li", "/c/dup": "dup_leaf", "/c/unit": "leaf_unit", "/c/batch": "leaf_batch", "/c/rate": "leaf_rate", "/c/tags": "leaf_tags", "/c/reexp": "leaf_reexp", "/c/top_args": "with_values", "/c/kw": "leaf_kw", "/c/href": "leaf_href", "/c/direct": "leaf_direct", "/c/plain": "leaf_plain", "/c/scaled": "leaf_scaled", "/c/items": "leaf_items", "/c/flag": "leaf_flag", "/c/pair": "leaf_pair", "/c/ext": "leaf_ext", "/c/args": "with_args:1", "/c/args2": "with_args:2", "/c/args3": "with_args:3", "/c/rt": "with_runtime", "/c/annotated": "annotated", "/c/ann_root": "root"}
+FUN_OF = {"/c/optional": "optional", "/c/shadow": "leaf_shadow", "/c/ml": "ml_leaf", "/c/crlf": "leaf_crlf", "/c/method": "leaf_method", "/c/clsattr": "leaf_clsattr", "/c/li": "leaf_li", "/c/dup": "dup_leaf", "/c/unit": "leaf_unit", "/c/batch": "leaf_batch", "/c/rate": "leaf_rate", "/c/tags": "leaf_tags", "/c/reexp": "leaf_reexp", "/c/top_args": "with_values", "/c/kw": "leaf_kw", "/c/href": "leaf_href", "/c/direct": "leaf_direct", "/c/plain": "leaf_plain", "/c/scaled": "leaf_scaled", "/c/items": "leaf_items", "/c/flag": "leaf_flag", "/c/pair": "leaf_pair", "/c/ext": "leaf_ext", "/c/args": "with_args:1", "/c/args2": "with_args:2", "/c/args3": "with_args:3", "/c/rt": "with_runtime", "/c/annotated": "annotated", "/c/ann_root": "root"}
 
 
 def main():
@@ -556,7 +575,7 @@ def main():
                         for style, val, calls_ in en.get("steps", []):
                             if calls_:
                                 note(None, "entry styles %s on a populated store: entering the data function by '%s' executed %s" % (styles, style, calls_))
-                            if val != "'n-as'":
+                            if val != "('n-as', 'opt:None:0')":
                                 note(None, "entry styles %s: '%s' returned %s" % (styles, style, val))
                 if mode == "c02" and evals == 1:
                     # the same code copied to another accepted package, same store: nothing is recomputed
